@@ -58,9 +58,17 @@ def minify_tree(model, source, options=None, version=(3, 12, 0), tree=None, extr
     parsed = []
 
     def h_parse(I, e, a, kw, env):
-        if a and a[0] is source and not parsed:      # the module being minified; later parses (self-checks of a stage) keep their own hooks
+        if not parsed and a and isinstance(a[0], (str, bytes)):
+            # the module being minified: whatever the driver hands to the parser is parsed (by CPython); later parses (self-checks of a
+            # stage) keep their own hooks
             parsed.append(1)
-            return to_obj(tree if tree is not None else ast.parse(source))
+            if tree is not None and a[0] is source:
+                return to_obj(tree)
+            try:
+                return to_obj(ast.parse(a[0]))
+            except SyntaxError:
+                from .absint import _Raise
+                raise _Raise('SyntaxError')
         if extra_hooks and 'ast.parse' in extra_hooks:
             return extra_hooks['ast.parse'](I, e, a, kw, env)
         return to_obj(ast.parse(*a, **kw))
